@@ -370,7 +370,7 @@ def _valid(t):
         ref_shape(t), ref_cond(t)
         _check_children(t)
         return True
-    except (AssertionError, ValueError, IndexError, np.exceptions.AxisError):
+    except (AssertionError, ValueError, IndexError, TypeError, np.exceptions.AxisError):
         return False
 
 
@@ -460,7 +460,7 @@ def trees(tier, seed=0):
         while n < 24 and guard < 4000:
             guard += 1
             t = _gen(rng, rng.choice([(2,), (3,), (2, 2), (2, 3)]), 3)
-            if t is not None and _valid(t) and _depth(t) >= 2:
+            if t is not None and not _has_none(t) and _valid(t) and _depth(t) >= 2:
                 nm = f"generated#{n}: {_show(t)}"
                 if nm not in T:
                     T[nm] = t
@@ -548,16 +548,16 @@ def _gen(rng, shape, depth):
         inner = _gen(rng, shape[1:], depth - 1)
         if inner is None:
             return None
-        if k == "vmap_m" and _has(inner, ("perm", "partial", "vmap_m", "scan", "vmap_b")):
-            return None
+        if k == "vmap_m" and (_has(inner, ("perm", "partial", "vmap_m", "scan", "vmap_b", "flip")) or not _has(inner, ("affine", "loc", "scale", "addc"))):
+            return None     # in_axes=if_array(0) needs parameters to map over (documented: otherwise use axis_size)
         cax = None
         if ref_cond_safe(inner) is not None:
             cax = rng.choice([None, 0, -1, 1, -2])
         return (k, inner, shape[0], cax)
     if k == "scan":
         inner = _gen(rng, shape, depth - 1)
-        if inner is None or _has(inner, ("perm", "partial", "vmap_m", "scan", "vmap_b")):
-            return None
+        if inner is None or _has(inner, ("perm", "partial", "vmap_m", "scan", "vmap_b", "flip")) or not _has(inner, ("affine", "loc", "scale", "addc")):
+            return None     # Scan needs stacked parameters to scan over
         return ("scan", inner, rng.choice([2, 3]))
     if k == "embed":
         inner = _gen(rng, shape, depth - 1)
@@ -873,3 +873,12 @@ def obligations(tier, seed):
     tasks.append(dict(name="merge_transforms", func="c08:ob_merge_transforms", kwargs={}, cost=4.0))
     tasks.append(dict(name="shape algebra", func="c08:ob_shape_algebra", kwargs=dict(max_children=3 if tier == "quick" else 4, max_rank=2 if tier == "quick" else 3), cost=8.0))
     return tasks
+
+
+def _has_none(t):
+    if t is None:
+        return True
+    if t[0] in LEAFK:
+        return False
+    kids = t[1] if isinstance(t[1], list) else [t[1]]
+    return any(_has_none(q) for q in kids)
